@@ -28,10 +28,11 @@ RULE = ('base programs from the typed generator (numbers, strings, lists, closed
         'multi-body, combines in all syntaxes, negation, implication, disjunction, '
         'functional and injectible predicates) + augmentations (Bool column and a reader '
         'of it, function over an open record, list of records / record with list / record '
-        'in record, a relay predicate whose column is typed only through variable-only '
+        'in record, a predicate Mq that reads a field of a closed record and hands the '
+        'record to a consumer Cq, a relay predicate whose column is typed only through variable-only '
         'calls and one fact, its statements inserted at independent positions); each base program in its generated order and under 2 further '
         'permutations of statements, conjuncts (also inside combines / negations) and '
-        'disjuncts; 6 single-point corruptions per program drawn from 23 kinds (literal of '
+        'disjuncts; 6 single-point corruptions per program drawn from 25 kinds (literal of '
         'another type in a rule / in one fact, variable swapped with one of another type, '
         'arithmetic on Str, ++ / ! on Num, expression replaced by a literal of another '
         'type, added == / < / in / && across types, mixed list literal, record literal '
@@ -39,7 +40,10 @@ RULE = ('base programs from the typed generator (numbers, strings, lists, closed
         'a string, swapped call arguments, bound variable passed to a column of another '
         'type (incl. [T] to [T\'], record to record\'), one column of every fact retyped, '
         'the fact / second call of a relay predicate `Tq(v: x) :- D(f: x); Tq(v: lit)` '
-        'retyped: a clash between two rules that flows only through the callee), '
+        'retyped: a clash between two rules that flows only through the callee; a field '
+        'that a record closed by a literal does not have addressed next to 1-2 valid '
+        'accesses of the same variable, or by the consumer Cq of a record that a '
+        'predicate Mq reading one of its fields hands on), '
         'each again under 3 orders; the reference checker classifies every variant: '
         'ground clash => must raise TypeErrorCaughtException (from LogicaProgram(...) or, '
         'failing that, from FormattedPredicateSql of some predicate); clean under the '
@@ -58,8 +62,10 @@ ASSUMPTIONS = [
     'literal closed, e.f needs that field, call = instance of the callee signature, all '
     'rules of a predicate one signature, Sum/+= Num, Min/Max same type, Count any -> Num, '
     'List/Set [T], ArgMin/ArgMax {arg: A, value: V} -> A',
-    'ground clash = failed unification of two fully determined types; clashes against '
-    'Any / Singular / Sequential / an open record (null, [], Size("s"), r.nofield) are '
+    'ground clash = failed unification of two fully determined types, or a field '
+    'addressed on a record whose type is the (closed) type of a record literal that lacks '
+    'it; clashes against Any / Singular / Sequential / an open record (null, [], '
+    'Size("s"), r.nofield on a record not closed by a literal) are '
     'outside the statement and only counted',
     'constraints the statement does not fix (!= operands, if-condition Bool, proposition '
     'Bool, `in` inside a boolean expression, same argument type in every body of a '
@@ -104,6 +110,8 @@ OPTS = dict(p_colnames=0.0, p_neg=0.25, p_agg=0.35, p_distinct=0.4, p_null_fact=
             pred_agg_ops_s=('Min', 'Max', 'List', 'Set', 'ArgMax'),
             n_idb=(2, 3), nest_depth=2, n_inj=(0, 2))
 N_MUTANTS = 6
+MUST_KINDS = ('relay_clash', 'missing_field', 'missing_field_consumer',
+              'in_expression_other_list')
 N_ORDERS = 3
 RULE_CACHE = not os.environ.get('VERIF_C05_NO_RULE_CACHE')
 ENGINE_LINES = {
@@ -174,7 +182,8 @@ def verdict(prog, assume=()):
         v['why'] = 'unsupported:recursion'
         return v
     gcl = [c for c in lax.clashes if c['ground']]
-    hard = [c for c in gcl if c['cls'] in ('plain', 'rec_head_lit') or c['cls'] in inc]
+    hard = [c for c in gcl if c['cls'] in ('plain', 'rec_head_lit', 'missing_field') or
+            c['cls'] in inc]
     if hard:
         c = hard[0]
         for c2 in hard:               # prefer the plain class for the bucket name
@@ -689,8 +698,16 @@ def one_program(rng, col):
     if not kinds:
         return
     chosen = rng.sample(kinds, min(N_MUTANTS, len(kinds)))
-    if 'relay_clash' in kinds and 'relay_clash' not in chosen:
-        chosen[-1] = 'relay_clash'      # the cross-rule, through-the-callee clash: always
+    # the cross-rule / through-the-callee clash and the missing field of a closed record
+    # (next to valid accesses; through a predicate handing the record on): always
+    slot = len(chosen) - 1
+    for must in MUST_KINDS:
+        if must in kinds and must not in chosen and slot >= 0:
+            while slot >= 0 and chosen[slot] in MUST_KINDS:
+                slot -= 1
+            if slot >= 0:
+                chosen[slot] = must
+                slot -= 1
     while len(chosen) < N_MUTANTS:
         chosen.append(rng.choice(kinds))
     for n, kind in enumerate(chosen):
